@@ -108,6 +108,9 @@ def judge : Judge := liftJudge fun input obs => do
                   if p.fNum == 0 then "f=0" else if p.fNum == p.fDen then "f=1" else "0<f<1"]
                  ++ (if waitNs ≤ 0 then ["default-wait"] else []))
     ++ (if hasCB then ["cb"] else []) ++ (if timeout > 0 then ["timeout"] else [])
+    -- `shared` pools name the one policy object (CreateWrapper called that many times on it). The model
+    -- does not read it: wrappers created from one policy are independent (`wrappers_independent`).
+    ++ (let k := (optInt input "shared").toNat; if k ≥ 2 then [s!"shared-policy={k}"] else [])
   let step (acc : Acc) (ro : Req × Json) : Acc :=
     let (r, o) := ro
     let env := r.env timeout
